@@ -431,6 +431,17 @@ Definition split_lines (t : list Z) : list (list Z) := split_lines_from [] t.
 Definition read_repl (text : list Z) : status * list sexp :=
   observe (parse_pieces true false (read_fuel text) (split_lines (scan_text text))).
 
+(* the Go API for incremental input (Parser.ResetAddNewInput, NewInput ..., the last piece WholeText): the text cut at
+   the given rune offsets (ascending) *)
+Fixpoint cut_pieces (cuts : list nat) (prev : nat) (t : list Z) : list (list Z) :=
+  match cuts with
+  | [] => [t]
+  | c :: r => firstn (c - prev) t :: cut_pieces r c (skipn (c - prev) t)
+  end.
+
+Definition read_pieces (cuts : list nat) (text : list Z) : status * list sexp :=
+  observe (parse_pieces true false (read_fuel text) (cut_pieces cuts 0 (scan_text text))).
+
 (* ---- the exact mathematical value of a numeric notation (independent of Reader.digits_val:
         most significant digit first, value = d * base^(number of digits after it) + rest) ---- *)
 
